@@ -214,18 +214,16 @@ Proof. destruct m; [congruence|reflexivity]. Qed.
 (* ---------- the theorem ---------- *)
 Section Main.
 Variable sortf : list keyed -> outcome (list keyed).
-Variables (base maxfrag : Z) (info : node_info) (om : smap Z) (req : wreq) (fuel : nat).
-Let avail : smap Z := nr_cpumap (get_available_nofloat info).
+Variables (base maxfrag : Z) (avail : smap Z) (availmem : Z) (om : smap Z) (cpu : f64) (mem : Z) (fuel : nat).
 Hypothesis Hbase : 0 < base.
-Hypothesis Hnuma : nr_numa (ni_cap info) = [].
 Hypothesis Hom_ne : om <> [].
 Hypothesis Hom_nd : NoDup (keys om).
 Hypothesis Hom_base : forall c v, In (c, v) om -> v = base.
 Hypothesis Hav_nd : NoDup (keys avail).
-(* after the put-back the origin's cores are whole free cores *)
+(* after the put-back the origin's cores are whole free cores of this map *)
 Hypothesis Hfree : forall c, In c (keys om) -> lookup_opt avail c = Some base.
 (* the request asks for as many whole cores as the origin holds *)
-Hypothesis Hreq : pieces_request base (rq_cpu_req req) = base * Z.of_nat (length om).
+Hypothesis Hreq : pieces_request base cpu = base * Z.of_nat (length om).
 
 Let n : nat := length om.
 Let fulls : list core := filter (is_full_core base) (cores_of avail).
@@ -281,7 +279,7 @@ Qed.
 Lemma first_n_are_origin : firstn n L = filter member L.
 Proof.
   pose proof (reorder_members_first old (isort core_less fulls)) as P. fold L in P. cbv zeta in P.
-  fold member in P. 
+  fold member in P.
   assert (LEN : length (filter member L) = n).
   { unfold n. rewrite <- (map_length cid), (Permutation_length members_ids). unfold keys. apply map_length. }
   rewrite P at 1. rewrite firstn_app, LEN, Nat.sub_diag. simpl. rewrite app_nil_r.
@@ -295,11 +293,11 @@ Proof.
   rewrite (lookup_opt_all_base om base k Hom_base). reflexivity.
 Qed.
 
-Theorem first_plan_is_origin plans :
-  get_cpu_plans_g sortf info om base maxfrag req [] fuel = Ok plans ->
-  plans = [] \/ exists p rest, plans = (EmptyString, p) :: rest /\ forall k, lookup_opt p k = lookup_opt om k.
+(* doGetCPUPlans on this map: no plan, or the origin's cores first *)
+Theorem do_plans_first cross :
+  do_get_cpu_plans_g sortf om avail availmem base maxfrag cpu mem fuel = Ok cross ->
+  cross = [] \/ exists p rest, cross = p :: rest /\ forall k, lookup_opt p k = lookup_opt om k.
 Proof.
-  unfold get_cpu_plans_g. cbn [numa_loop bind]. fold avail.
   unfold do_get_cpu_plans_g, new_host.
   replace (base =? 0) with false by (symmetry; apply Z.eqb_neq; lia). cbn [andb bind].
   rewrite (match_nonnil om _ _ Hom_ne).
@@ -315,23 +313,119 @@ Proof.
   destruct (aff_loop fuel base (Z.of_nat (length om)) L []) as [r| | |] eqn:AL; cbn [bind]; try discriminate.
   assert (Hn' : 0 < Z.of_nat (length om)) by (fold n; lia).
   destruct (aff_loop_first fuel base (Z.of_nat (length om)) L r Hn' AL) as [->|[rest ->]].
-  - (* no plan at all *)
-    intro H. left.
-    destruct (0 <? rq_mem_req req);
+  - intro H. left.
+    destruct (0 <? mem);
       [match type of H with context [if ?c <? ?d then _ else _] => destruct (c <? d) end|];
-      cbn [bind app] in H; try rewrite firstn_nil in H; injection H as <-; reflexivity.
+      try rewrite firstn_nil in H; injection H as <-; reflexivity.
   - rewrite Nat2Z.id. fold n.
     set (p0 := fold_left (fun p c => upd p (cid c) base) (firstn n L) []).
     intro H.
-    assert (G : forall cross, (cross = [] \/ exists rest', cross = p0 :: rest') ->
-                Ok (map (fun p => (EmptyString, p)) cross) = Ok plans ->
-                plans = [] \/ exists p rest0, plans = (EmptyString, p) :: rest0 /\ forall k, lookup_opt p k = lookup_opt om k).
-    { intros cross [->|[rest' ->]] E; injection E as <-; [left; reflexivity|].
+    assert (G : forall cr, (cr = [] \/ exists rest', cr = p0 :: rest') -> Ok cr = Ok cross ->
+                cross = [] \/ exists p rest0, cross = p :: rest0 /\ forall k, lookup_opt p k = lookup_opt om k).
+    { intros cr [->|[rest' ->]] E; injection E as <-; [left; reflexivity|].
       right. exists p0. eexists. split; [reflexivity|]. intro k. apply first_plan_lookup. }
-    destruct (0 <? rq_mem_req req).
-    + match type of H with context [if ?c <? ?d then _ else _] => destruct (c <? d) end; cbn [bind app] in H.
+    destruct (0 <? mem).
+    + match type of H with context [if ?c <? ?d then _ else _] => destruct (c <? d) end.
       * eapply G; [|exact H]. match goal with |- firstn ?k _ = [] \/ _ => destruct k end; simpl; [auto|right; eexists; reflexivity].
       * eapply G; [|exact H]. right. eexists; reflexivity.
-    + cbn [bind app] in H. eapply G; [|exact H]. right. eexists; reflexivity.
+    + eapply G; [|exact H]. right. eexists; reflexivity.
 Qed.
 End Main.
+
+(* ---------- GetCPUPlans: without NUMA, and with the origin's NUMA node visited first ---------- *)
+Lemma numa_loop_prefix sortf order : forall numa avail0 origin base maxfrag cpu mem fuel avail acc a r,
+  numa_loop sortf order numa avail0 origin base maxfrag cpu mem fuel avail acc = Ok (a, r) -> exists r', r = acc ++ r'.
+Proof.
+  induction order as [|nid rest IH]; intros numa avail0 origin base maxfrag cpu mem fuel avail acc a r H; simpl in H.
+  - injection H as _ <-. exists []. now rewrite app_nil_r.
+  - destruct (do_get_cpu_plans_g _ _ _ _ _ _ _ _ _) as [plans| | |]; cbn [bind] in H; try discriminate.
+    apply IH in H. destruct H as [r' ->]. rewrite <- app_assoc. eexists; reflexivity.
+Qed.
+
+Section Top.
+Variable sortf : list keyed -> outcome (list keyed).
+Variables (base maxfrag : Z) (info : node_info) (om : smap Z) (req : wreq) (fuel : nat).
+Hypothesis Hbase : 0 < base.
+Hypothesis Hom_ne : om <> [].
+Hypothesis Hom_nd : NoDup (keys om).
+Hypothesis Hom_base : forall c v, In (c, v) om -> v = base.
+Hypothesis Hreq : pieces_request base (rq_cpu_req req) = base * Z.of_nat (length om).
+
+(* no NUMA topology *)
+Theorem first_plan_is_origin plans :
+  nr_numa (ni_cap info) = [] ->
+  NoDup (keys (nr_cpumap (get_available_nofloat info))) ->
+  (forall c, In c (keys om) -> lookup_opt (nr_cpumap (get_available_nofloat info)) c = Some base) ->
+  get_cpu_plans_g sortf info om base maxfrag req [] fuel = Ok plans ->
+  plans = [] \/ exists p rest, plans = (EmptyString, p) :: rest /\ forall k, lookup_opt p k = lookup_opt om k.
+Proof.
+  intros Hnuma Hav Hfree. unfold get_cpu_plans_g. cbn [numa_loop bind].
+  destruct (do_get_cpu_plans_g sortf om _ _ base maxfrag _ _ fuel) as [cross| | |] eqn:D; cbn [bind]; try discriminate.
+  intro H. injection H as <-. simpl.
+  destruct (do_plans_first sortf base maxfrag _ _ om _ _ fuel Hbase Hom_ne Hom_nd Hom_base Hav Hfree Hreq cross D) as [->|[p [rest [-> Lk]]]].
+  - left. reflexivity.
+  - right. exists p. eexists. split; [reflexivity|exact Lk].
+Qed.
+
+(* NUMA topology, the origin's NUMA node [nu] visited first (what GetCPUPlans does
+   since /repo 3d8e6c0): unless node [nu] yields no plan at all (its memory cannot
+   hold the request), the first plan is the origin's cores on node [nu] *)
+Theorem first_plan_is_origin_numa nu order plans :
+  let avail := get_available_nofloat info in
+  let numamap := numa_cpu_map (nr_numa (ni_cap info)) (nr_cpumap avail) nu in
+  let numamem := Z.min (lookup 0 (nr_numamem avail) nu) (nr_mem avail) in
+  NoDup (keys numamap) ->
+  (forall c, In c (keys om) -> lookup_opt numamap c = Some base) ->
+  get_cpu_plans_g sortf info om base maxfrag req (nu :: order) fuel = Ok plans ->
+  (exists p rest, plans = (nu, p) :: rest /\ forall k, lookup_opt p k = lookup_opt om k) \/
+  do_get_cpu_plans_g sortf om numamap numamem base maxfrag (rq_cpu_req req) (rq_mem_req req) fuel = Ok [].
+Proof.
+  intros avail numamap numamem Hav Hfree. unfold get_cpu_plans_g. fold avail. cbn [numa_loop]. fold numamap. fold numamem.
+  destruct (do_get_cpu_plans_g sortf om numamap numamem base maxfrag (rq_cpu_req req) (rq_mem_req req) fuel) as [pl| | |] eqn:D;
+    cbn [bind]; try discriminate.
+  destruct (do_plans_first sortf base maxfrag _ _ om _ _ fuel Hbase Hom_ne Hom_nd Hom_base Hav Hfree Hreq pl D) as [->|[p [rest [-> Lk]]]].
+  - intros _. right. reflexivity.
+  - destruct (numa_loop sortf order _ _ om base maxfrag _ _ fuel _ _) as [[a r]| | |] eqn:NL; cbn [bind]; try discriminate.
+    apply numa_loop_prefix in NL. destruct NL as [r' ->]. simpl.
+    destruct (do_get_cpu_plans_g sortf om (nr_cpumap a) (nr_mem a) base maxfrag _ _ fuel) as [cross| | |]; cbn [bind]; try discriminate.
+    intro H. injection H as <-. left. exists p. eexists. split; [reflexivity|exact Lk].
+Qed.
+End Top.
+
+(* ---------- the visit order of GetCPUPlans starts with the origin's NUMA node ---------- *)
+Lemma isort_in {A} (less : A -> A -> bool) l x : In x (isort less l) -> In x l.
+Proof. intro H. eapply Permutation_in; [apply isort_perm|exact H]. Qed.
+
+Lemma isort_head_min {A} (less : A -> A -> bool) (m : A) : forall l, NoDup l -> In m l ->
+  (forall y, In y l -> y <> m -> less m y = true /\ less y m = false) ->
+  exists rest, isort less l = m :: rest.
+Proof.
+  induction l as [|x t IH]; intros ND I H; simpl in *; [tauto|].
+  inversion ND as [|? ? NI ND']; subst.
+  destruct I as [->|I].
+  - destruct (isort less t) as [|y s] eqn:E; simpl; [eexists; reflexivity|].
+    assert (Iy : In y t) by (apply (isort_in less); rewrite E; simpl; auto).
+    assert (y <> m) by (intro; subst; tauto).
+    destruct (H y (or_intror Iy) H0) as [_ L]. rewrite L. eexists; reflexivity.
+  - assert (x <> m) by (intro; subst; tauto).
+    destruct (IH ND' I) as [rest E].
+    + intros y Iy Ny. apply H; auto.
+    + rewrite E. simpl. destruct (H x (or_introl eq_refl) H0) as [L _]. rewrite L. eexists; reflexivity.
+Qed.
+
+Lemma dedup_nodup l : NoDup (dedup l).
+Proof.
+  induction l as [|x t IH]; simpl; constructor.
+  - intro H. apply filter_In in H. destruct H as [_ H]. rewrite String.eqb_refl in H. discriminate.
+  - apply NoDup_filter. exact IH.
+Qed.
+
+Theorem visit_order_head (info : node_info) (origin : smap Z) (nu : string) :
+  In nu (numa_nodes info) ->
+  origin_on (nr_numa (ni_cap info)) origin nu = true ->
+  (forall y, y <> nu -> origin_on (nr_numa (ni_cap info)) origin y = false) ->
+  exists rest, numa_visit_order info origin = nu :: rest.
+Proof.
+  intros I On Off. unfold numa_visit_order. apply isort_head_min; [apply dedup_nodup|exact I|].
+  intros y _ Ny. unfold numa_less. rewrite On, (Off y Ny). simpl. auto.
+Qed.
